@@ -283,4 +283,16 @@ def r14_6(ctx):
     borrow(ctx, r13_2, "R13.2", "R14.6", " [every string can be measured: the width-table search never indexes outside the table, so printing any text cannot raise IndexError]")
 
 
-RULES = [r14_1, r14_2, r14_3, r14_4, r14_5, r14_6]
+def r14_7(ctx):
+    from .common import justify_full_indices
+    ctx.rule("R14.7", "no IndexError while justifying: in the full-justify branch of Lines.justify the round-robin cursor used in spaces[len(spaces) - index - 1] is 0 or (index + 1) % len(spaces) on every path (reaching definitions), is reset to 0 after each new `spaces` list before its first use (must-pass), the list is non-empty there and never resized; spaces[index] in the rebuild loop is guarded by index < len(spaces) with index from enumerate")
+    justify_full_indices(ctx)
+
+
+def r14_8(ctx):
+    from .c05 import r5_1
+    from .common import borrow
+    borrow(ctx, r5_1, "R5.1", "R14.8", " [premise of exception-free rendering: a Text whose _length or span offsets run ahead of its characters makes Text.render raise (StopIteration -> RuntimeError) when printed]")
+
+
+RULES = [r14_1, r14_2, r14_3, r14_4, r14_5, r14_6, r14_7, r14_8]
